@@ -250,4 +250,51 @@ theorem emulate_idx (v : Variant) (p : Pfx) (hp : p ≠ .none) (s : Cpu) (b : Re
       simp [emulate, checkInterrupt_quiescent s b hc.quiescent, execOne, hap, fetchByte, rb_read, rb_read_mem, h0, hfd,
         afterIndexPrefix, hi, stepQ]
 
+/-! ### interrupt lines -/
+
+/-- the interrupt request lines of the recording bus, which no bus operation changes -/
+def RecBus.lines (b : RecBus) : Bool × Bool := (b.int, b.nmi)
+
+theorem lines_read (a : BitVec 16) (c : Nat) (b : RecBus) : (read a c b).2.lines = b.lines := rfl
+theorem lines_write (a : BitVec 16) (x : BitVec 8) (c : Nat) (b : RecBus) : (write a x c b).lines = b.lines := rfl
+theorem lines_nomreq (a : BitVec 16) (c : Nat) (b : RecBus) : (Bus.waitNoMreq a c b).lines = b.lines := rfl
+theorem lines_waitLoop (a : BitVec 16) (n : Nat) (b : RecBus) : (waitLoop a n b).lines = b.lines := by
+  simp [RecBus.lines, waitLoop_int]
+theorem lines_readIo (p : BitVec 16) (b : RecBus) : (Bus.readIo p b).2.lines = b.lines := by
+  show (RecBus.readIo p b).2.lines = _
+  unfold RecBus.readIo; cases b.io <;> rfl
+theorem lines_writeIo (p : BitVec 16) (x : BitVec 8) (b : RecBus) : (Bus.writeIo p x b).lines = b.lines := rfl
+theorem lines_halt (h : Bool) (b : RecBus) : (Bus.halt h b).lines = b.lines := rfl
+theorem lines_reti (b : RecBus) : (Bus.reti b).lines = b.lines := rfl
+theorem lines_pccb (a : BitVec 16) (b : RecBus) : (Bus.pcCallback a b).lines = b.lines := rfl
+theorem lines_readWord (a : BitVec 16) (c : Nat) (b : RecBus) : (readWord a c b).2.lines = b.lines := rfl
+theorem lines_writeWord (a w : BitVec 16) (c : Nat) (b : RecBus) : (writeWord a w c b).lines = b.lines := rfl
+theorem lines_operandAddr (p : Pfx) (s : Cpu) (b : RecBus) : (operandAddr p s b).2.2.lines = b.lines := by
+  cases p <;> simp [operandAddr, lines_waitLoop, lines_read]
+
+theorem exec_lines (v : Variant) (p : Pfx) (i : Instr) (s : Cpu) (b : RecBus) :
+    (exec v p i s b).2.lines = b.lines := by
+  cases i with
+  | inc r => cases r <;> simp [exec, lines_operandAddr, lines_read, lines_write, lines_nomreq]
+  | dec r => cases r <;> simp [exec, lines_operandAddr, lines_read, lines_write, lines_nomreq]
+  | alu op r => cases r <;> simp [exec, lines_operandAddr, lines_read]
+  | ld d r => cases d <;> cases r <;> simp [exec, lines_operandAddr, lines_read, lines_write]
+  | ldRN r => cases r <;> cases p <;> simp [exec, fetchByte, lines_read, lines_write, lines_waitLoop]
+  | djnz => simp only [exec]; split <;> simp [lines_read, lines_waitLoop, lines_nomreq]
+  | jrcc c => simp only [exec]; split <;> simp [lines_read, lines_waitLoop]
+  | retcc c => simp only [exec]; split <;> simp [pop16, lines_read, lines_nomreq]
+  | callcc c => simp only [exec, execCall]; split <;> simp [push16, fetchByte, lines_read, lines_write, lines_nomreq]
+  | call => simp [exec, execCall, push16, fetchByte, lines_read, lines_write, lines_nomreq]
+  | ldNNA => cases v <;> simp [exec, fetchWord, lines_read, lines_write]
+  | outNA => cases v <;> simp [exec, fetchByte, lines_read, lines_writeIo]
+  | _ => simp [exec, fetchWord, fetchByte, pop16, push16, lines_read, lines_write, lines_nomreq, lines_waitLoop,
+      lines_readIo, lines_writeIo, lines_halt, lines_readWord, lines_writeWord]
+
+theorem Calm.transfer {s s' : Cpu} {b b' : RecBus} (hc : Calm s b) (h1 : s'.activePrefix = .none)
+    (h2 : s'.skipInt = false) (h3 : s'.iff1 = s.iff1) (hl : b'.lines = b.lines) : Calm s' b' := by
+  obtain ⟨c1, c2, c3, c4⟩ := hc
+  have hi : b'.int = b.int := congrArg Prod.fst hl
+  have hn : b'.nmi = b.nmi := congrArg Prod.snd hl
+  exact ⟨h1, h2, hn ▸ c3, by rw [hi, h3]; exact c4⟩
+
 end ZxVerif.Z80
